@@ -200,6 +200,10 @@ def r1(ctx: Ctx, rid: str = "C07.R1") -> None:
                 key = (m.name, "+".join(ops))
                 if key not in table and len(ops) == 1 and set(cs) <= {"FileNotFoundError"}:
                     key = (m.name, f"{ops[0]}:FileNotFoundError")
+                    if key not in table and ops[0] == "read_json":
+                        key = (m.name, "read_file:FileNotFoundError")  # read_json = read_file + decode: the same 'vanished' case
+                if key not in table and ops == ["read_json"] and set(c_.split(".")[-1] for c_ in cs) <= {"JSONDecodeError", "UnicodeDecodeError", "ValueError"}:
+                    key = (m.name, "parse")  # only the decode half of read_json is handled here
             else:
                 key = (m.name, "parse")
             ent = table.get(key) if key else None
